@@ -30,7 +30,8 @@ import z3
 from pyvc import loops, models
 from pyvc.engine import Explorer, Frame, Interp, PyExc
 from pyvc.runner import Check, Unit, run_units
-from pyvc.values import (NONE, V, VBool, VBytes, VConst, VFloat, VInt, VList, VObj, VStr, VTuple)
+from pyvc.values import (NONE, V, VBool, VBytes, VConst, VDict, VFloat, VInt, VList, VObj, VStr,
+                         VTuple)
 
 from . import transport_env as te
 from .c15 import Stub, coro
@@ -363,7 +364,7 @@ def priority_harness(I: Interp) -> None:
         pr = I.call_v(I.getattr_v(VConst(P), "from_level"), [wrap_enum(lv_)], {})
         lv2 = I.call_v(I.getattr_v(pr, "to_level"), [], {})
         I.prove(f"P6-to_level(from_level({lv_.name}))", models.as_int(I, lv2) == int(lv_))
-    for p in range(0, 8):
+    for p in range(0, 9):
         body = b'{"x": 1}'
         line = VBytes(b"<%d>" % p + body)
         r = I.call_v(I.getattr_v(VConst(lg.PenlogRecord), "parse_priority"), [line], {})
@@ -371,6 +372,62 @@ def priority_harness(I: Interp) -> None:
     r = I.call_v(I.getattr_v(VConst(lg.PenlogRecord), "parse_priority"), [VBytes(b'{"x": 1}')],
                  {})
     I.prove("P6-absent-prefix-accepted", z3.BoolVal(r is NONE))
+
+
+SPEC_PRIORITY = {"TRACE": 8, "DEBUG": 7, "INFO": 6, "NOTICE": 5, "WARNING": 4, "ERROR": 3,
+                 "CRITICAL": 2}
+
+
+def writer_harness(I: Interp) -> None:
+    """Writer side: for every log level, `_ZstdFileHandler.emit` writes one line
+    `<p>` + formatted record (+ newline) whose prefix p is the priority stored in the JSON record
+    (`_JSONFormatter.format`), so that filtering on the prefix equals filtering on the field."""
+    from contracts.c15 import Stub
+    lg = L()
+    for lv_ in lg.Loglevel:
+        want = SPEC_PRIORITY.get(lv_.name)
+        if want is None:
+            continue
+        written: list[V] = []
+        I.ex.stubs[("logfile", "write")] = lambda I2, r, a, k, w=written: (w.append(a[0]), NONE)[1]
+        rec = VObj(Stub, {"levelno": wrap_enum(lv_)}, lazy=True, tag="record")
+        h = VObj(lg._ZstdFileHandler, {"file": VObj(Stub, {}, lazy=True, tag="logfile")})
+        I.ex.contracts[lg._ZstdFileHandler.format] = lambda I2, self_, r: VStr('{"json": 1}')
+        I.ex.contracts[lg.logging.Handler.format] = lambda I2, self_, r: VStr('{"json": 1}')
+        try:
+            I.call_v(I.getattr_v(h, "emit"), [rec], {})
+        except PyExc as e:
+            I.fail(f"W-emit-does-not-raise({lv_.name})", e.exc.cls.__name__)
+            continue
+        ok = len(written) == 1 and isinstance(written[0], VBytes) and \
+            written[0].concrete() == b'<%d>{"json": 1}\n' % want
+        I.prove(f"W-one-line-with-prefix-<{want}>-for-{lv_.name}", z3.BoolVal(ok),
+                repr(written[0].concrete() if written and isinstance(written[0], VBytes)
+                     else written))
+        # the JSON record carries the same priority
+        made: list[dict] = []
+        models.CLASS_MODELS[lg._PenlogRecordV2] = lambda I2, cls, a, k, m=made: (
+            m.append(k), VObj(Stub, {}, lazy=True, tag="penlog"))[1]
+        models.MODELS[lg.dataclasses.asdict] = lambda I2, a, k: VDict([])
+        models.MODELS[lg.json.dumps] = lambda I2, a, k: VStr("{}")
+        rec2 = VObj(Stub, {"levelno": wrap_enum(lv_), "exc_info": NONE, "name": VStr("m"),
+                           "created": VFloat(0.0), "pathname": VStr("p"), "lineno": VInt(1),
+                           "levelname": VStr(lv_.name), "funcName": VStr("f"),
+                           "__dict__": VDict([])}, lazy=True, tag="record")
+        I.ex.stubs[("record", "getMessage")] = lambda I2, r, a, k: VStr("msg")
+        models.MODELS[lg.datetime.datetime.fromtimestamp] = lambda I2, a, k: VObj(
+            Stub, {}, lazy=True, tag="dt")
+        I.ex.stubs[("dt", "isoformat")] = lambda I2, r, a, k: VStr("t")
+        f = VObj(lg._JSONFormatter, {"hostname": VStr("h")})
+        try:
+            I.call_v(I.getattr_v(f, "format"), [rec2], {})
+            pr = made[0].get("priority") if made else None
+            I.prove(f"W-json-priority-field-is-{want}-for-{lv_.name}",
+                    models.as_int(I, pr) == want if pr is not None else z3.BoolVal(False))
+        except PyExc as e:
+            I.fail(f"W-format-does-not-raise({lv_.name})", e.exc.cls.__name__)
+        finally:
+            models.CLASS_MODELS.pop(lg._PenlogRecordV2, None)
 
 
 def wrap_enum(m: Any) -> V:
@@ -384,7 +441,44 @@ def build_units(tier: str) -> list[Unit]:
             Unit("reader/records-reverse", records_harness(True)),
             Unit("hr/default", hr_harness("default")), Unit("hr/reverse", hr_harness("reverse")),
             Unit("hr/head", hr_harness("head")), Unit("hr/tail", hr_harness("tail")),
-            Unit("priority/mapping-and-prefix", priority_harness)]
+            Unit("priority/mapping-and-prefix", priority_harness),
+            Unit("writer/emit-and-format", writer_harness)]
+
+
+def native_writer() -> tuple[bool, str]:
+    """Log one record per level through the real zstd handler, read the file back with
+    PenlogReader: for every threshold the filtered records are those whose JSON priority passes."""
+    import logging
+    import shutil
+    import tempfile
+    from pathlib import Path
+    lg = L()
+    tmp = Path(tempfile.mkdtemp(prefix="c17w_"))
+    path = tmp / "log.json.zst"
+    name = f"c17.writer.{id(tmp)}"
+    h = lg.add_zst_log_handler(name, path, lg.Loglevel.TRACE)
+    logger = lg.get_logger(name)
+    logger.setLevel(lg.Loglevel.TRACE)
+    logger.propagate = False
+    levels = [lv for lv in lg.Loglevel if lv.name in SPEC_PRIORITY]
+    for lv in levels:
+        logger.log(int(lv), f"record at {lv.name}")
+    lg.remove_zst_log_handler(name, h)
+    bad = None
+    try:
+        for thr in lg.PenlogPriority:
+            with lg.PenlogReader(path) as r:
+                got = sorted(int(x.priority) for x in r.records(priority=thr))
+            want = sorted(p for p in SPEC_PRIORITY.values() if p <= int(thr))
+            if got != want:
+                bad = (f"threshold {thr.name}: records with priorities {got} returned, "
+                       f"the log holds one record per level, expected {want}")
+                break
+    except Exception as e:  # noqa: BLE001
+        bad = f"reading back failed: {type(e).__name__}: {e}"
+    shutil.rmtree(tmp, ignore_errors=True)
+    logging.getLogger(name).handlers.clear()
+    return bad is not None, bad or "filtering on the line prefix equals filtering on the field"
 
 
 def native_replay(unit: str, obligation: str, model: dict) -> tuple[bool, str]:
@@ -392,6 +486,8 @@ def native_replay(unit: str, obligation: str, model: dict) -> tuple[bool, str]:
     import tempfile
     from pathlib import Path
     lg = L()
+    if unit.startswith("writer/"):
+        return native_writer()
     lines = [json.dumps({"version": 2, "module": "m", "host": "h", "data": f"r{i}",
                          "datetime": "2024-01-01T00:00:00+00:00", "priority": 6})
              for i in range(4)]
